@@ -210,6 +210,16 @@ def main(argv=None):
         core.guarded(rep, text, check_model, rep, drv, gen, rng, m, text, c, fixed_points=pts)
         rep.case(key=text, nontrivial=True)
         rep.count("directed_nested_connective_models")
+    # directed: Mod / floor / abs on operands of either sign (the model's Mod has the sign of the divisor)
+    text = ("states(x=1, y=2)\nparameters(p=1)\na = Mod(x, 2) + Mod(y, -3) + Mod(-x, 2.5) + Mod(x*y, p)\n"
+            "b = floor(x) + floor(-y) + abs(x) - abs(-y)\nc = Conditional(Gt(Mod(x, 2), 1), x, y)\ndx_dt = a + b\ndy_dt = c\n")
+    c_ = pipeline.Case(drv, text)
+    m_ = textmodel.model_from_items(c_.captured)
+    pts = [{"t": 0.0, "dt": 0.1, "states": {"x": sx, "y": sy}, "params": {"p": sp}}
+           for sx in (-1.5, 1.25, -0.25, 2.75) for sy in (-1.75, 0.5) for sp in (1.5, -2.5)]
+    core.guarded(rep, text, check_model, rep, drv, gen, rng, m_, text, c_, fixed_points=pts)
+    rep.case(key=text, nontrivial=True)
+    rep.count("directed_sign_models")
     for i in range(n):
         kw = {}
         if i % 5 == 1:
